@@ -19,7 +19,8 @@ tvars == <<vars, l>>
 TraceInit == Init /\ l = 1 /\ TLCSet(1, 1)
 
 ResetVars ==
-  /\ state' = "sleep" /\ inTable' = TRUE
+  /\ state' = (IF WithSpawn THEN "init" ELSE "sleep") /\ inTable' = ~WithSpawn
+  /\ sp' = (IF WithSpawn THEN [pc |-> "start", named |-> FALSE] ELSE [pc |-> "none", named |-> FALSE])
   /\ mbox' = [q \in QSet |-> <<>>]
   /\ spc' = [s \in Senders |-> IF Len(Ops[s]) = 0 THEN "done" ELSE "send.lookup"]
   /\ sn' = [s \in Senders |-> 1]
@@ -83,6 +84,11 @@ StepT(e) ==
   /\ tpc'[e.th] = e.to
   /\ (e.to = "term" => Last(terms') = e.reason)
 
+StepP(e) ==
+  /\ e.th = "P" /\ sp.pc = e.from
+  /\ PStep
+  /\ sp'.pc = e.to
+
 TraceStep ==
   /\ l <= Len(TraceLog) /\ TraceLog[l].ev = "step"
   /\ LET e == TraceLog[l] IN
@@ -91,6 +97,7 @@ TraceStep ==
         \/ (e.k = "R" /\ StepR(e))
         \/ (e.k = "K" /\ StepK(e))
         \/ (e.k = "T" /\ StepT(e))
+        \/ (e.k = "P" /\ StepP(e))
      /\ Bind(e)
   /\ l' = l + 1
 
